@@ -121,8 +121,15 @@ CLAIMED['C07'] = dict(design='2/C07', text='The prost-derive output of all 31 me
     'unknown fields of every wire type) decode to the same content with only unknown fields skipped, clear() and Default are the empty message, and enum numbers/names equal the schema tables.',
     note='Byte-level coding (varints, length prefixes, UTF-8) lives in the external prost/bytes crates and is trusted; the record model is compared byte-for-byte with prost on concrete messages of every type each run. '
     'Outside the claim: the Python bindings and the generators (not Rust code this engine executes), readability of old archives beyond schema equality, NaN/-0.0 payloads, encoded_len, full cross products of presence patterns.')
+CLAIMED['C20'] = dict(design='2/C20', text='The OMMX layer of an artifact is executed from MIR: Builder::add_instance/add_solution/add_parametric_instance/add_sample_set, build, Artifact::get_layer and the four typed getters, '
+    'get_instances, get_solutions, get_layer_descriptors, get_manifest and every annotation setter/getter of the four annotation types; encode_to_vec/decode run the real prost-derive output on abstract wire records (C07). '
+    'ocipkg is replaced by its contract (descriptor+blob appended per add_layer, digest equal iff bytes equal, reopen = identity, manifest order). Layer digests and the requested digest are 64-bit solver variables: '
+    'z3 proves for archives of 0..2 (quick) / 0..3 (thorough) layers of any kinds that a typed getter returns exactly a stored layer of that kind with that digest (message and annotations) and fails for every other digest or kind, '
+    'that listings are in insertion order under the published media types, that only the OMMX artifact type is accepted, and that every annotation getter returns the set value (counts over all of u64) under the published key and fails when unset.',
+    note='The substrate (tar, SHA-256, OCI JSON, file system) is NOT verified: it is modelled by contract and the contract is compared with real archives written to disk and reopened on concrete cases each run; counterexamples are replayed on real archives. '
+    'chrono RFC3339 and integer Display/FromStr round trips assumed; serde_json parameters/config outside; <=3 layers (property: 6). One defect repaired by a fix: commit (digest shared by layers of different kinds); '
+    'set_authors([]) reading back as [""] is a recorded known finding.')
 NOT_APPLICABLE = {
-    'C20': 'artifact round-trip lives in ocipkg/tar/sha2/serde_json/chrono and the file system: none of it is in the crate MIR and all of it is foreign/IO under Kani; a model would verify the model, not the code',
 }
 PENDING = 'not yet built in this revision: harness for this property is under construction (engine mirsym); no claim is made'
 ALL = [f'C{i:02d}' for i in range(1, 21)]
